@@ -95,6 +95,17 @@ fn check_i32(i: i32, acc: &mut Acc) {
         if !ok {
             acc.viol(Violation::new("i32", format!("{} is outside 16 bits but gives {:?}", i, m), case()).sig("clause", "i32-outside"));
         }
+        // "reported invalid" also as a value: it must not be equal to (or hash like) the mode of the word that shares its low 16 bits
+        let low = FileMode::from(i as u16);
+        let h = |x: &FileMode| {
+            use std::hash::{Hash, Hasher};
+            let mut s = std::collections::hash_map::DefaultHasher::new();
+            x.hash(&mut s);
+            s.finish()
+        };
+        if m == low || (h(&m) == h(&low) && !matches!(low, FileMode::Invalid { .. })) {
+            acc.viol(Violation::new("i32", format!("{} is outside 16 bits but its result {:?} equals / hashes like {:?}", i, m, low), case()).sig("clause", "i32-outside-equals-valid"));
+        }
         acc.count("outside");
     } else {
         // −32768..−1 is the signed reading of a 16-bit mode word with bit 15 set (regular files and
